@@ -15,17 +15,17 @@ Import ListNotations.
 Open Scope Q_scope.
 Open Scope string_scope.
 
-(* 1. construction: float / array nutrients with any sensible label, int placeholders with bare labels *)
+(* 1. construction: int, float, list or array nutrients (int placeholders included), labels with or without
+      the " each month" suffix for a series *)
 Theorem c11_constructor_wf : forall k f p lk lf lp z, ctor k f p lk lf lp = Ok z ->
   match k with
-  | NList _ => lab_any lk /\ (match f with NInt _ => lab_sc lf | _ => lab_any lf end)
-               /\ (match p with NInt _ => lab_sc lp | _ => lab_any lp end)
+  | NList _ => lab_any lk /\ lab_any lf /\ lab_any lp
   | _ => lab_sc lk /\ lab_sc lf /\ lab_sc lp
   end -> WF z.
 Proof. exact ctor_wf. Qed.
 Print Assumptions c11_constructor_wf.
 
-(* 2. every operation (all but integer indexing and the declared label mutators) preserves WF *)
+(* 2. every operation, integer indexing included (all but the declared label mutators), preserves WF *)
 Theorem c11_op_closed : forall c x o z, WF x -> op_closed o -> run_op c x o = Ok z -> WF z.
 Proof. exact run_op_wf. Qed.
 Print Assumptions c11_op_closed.
@@ -35,8 +35,7 @@ Theorem c11_closed : forall c os x z, WF x -> Forall op_closed os -> run_ops c x
 Proof. intros c os x z. exact (run_ops_wf c os x z). Qed.
 Print Assumptions c11_closed.
 
-(* 4. the combined label list agrees with the three labels after EVERY operation, including integer
-      indexing and the label mutators, whatever the operand looked like (no hypothesis) *)
+(* 4. the combined label list agrees with the three labels after EVERY operation, including the label mutators, whatever the operand looked like (no hypothesis) *)
 Theorem c11_units_list : forall c x o z, run_op c x o = Ok z -> units z = [ku z; fu z; pu z].
 Proof. exact run_op_units. Qed.
 Print Assumptions c11_units_list.
@@ -90,28 +89,13 @@ Theorem c11_ratio_either_side : forall r q z, WF r -> WF q -> is_a_ratio r = tru
 Proof. exact mul_ratio_labels. Qed.
 Print Assumptions c11_ratio_either_side.
 
-(* 8. the 16 predicates: a single value and the one-month series give the same answer (or the same
+(* 8. the 16 predicates (and all_greater_than_or_equal_to_zero with any threshold): a single value and the one-month series give the same answer (or the same
       rejection) under all four flag settings *)
 Theorem c11_predicates : forall (incf incp : bool) (pr : pred) (k f p k' f' p' : Q) (lk lf lp : string),
   eval_pred incf incp pr (one_scalar lk lf lp k f p) (one_scalar lk lf lp k' f' p')
   = eval_pred incf incp pr (one_month lk lf lp k f p) (one_month lk lf lp k' f' p').
 Proof. intros. apply pred_scalar_series. Qed.
 Print Assumptions c11_predicates.
-
-(* 9. what the code as it is violates (each with a witness evaluated by the kernel) *)
-Theorem c11_integer_index_refuted : exists x z, WF x /\ run_op {| kcals_daily := 2100; fat_daily := 47;
-    protein_daily := 51; population := 7800000000 |} x (OIndex 0) = Ok z /\ mon z = false /\ ~ WF z.
-Proof.
-  destruct getitem_int_not_wf as (z & H & M & N). exists wit_series, z.
-  split; [exact wit_series_wf|]. split; [exact H|]. split; assumption.
-Qed.
-Print Assumptions c11_integer_index_refuted.
-
-Theorem c11_int_placeholder_refuted : exists z,
-  ctor (NList [1; 2]) (NInt 0) (NInt 0) "billion kcals each month" "thousand tons each month" "thousand tons each month"
-    = Ok z /\ fu z = "thousand tons each month each month" /\ ~ WF z.
-Proof. exact ctor_int_placeholder_not_wf. Qed.
-Print Assumptions c11_int_placeholder_refuted.
 
 (* ---------------------------------------------------------------- non-vacuity *)
 Definition conv0 : conv := {| kcals_daily := 2100; fat_daily := 47; protein_daily := 51; population := 7800000000 |}.
@@ -120,6 +104,17 @@ Definition conv0 : conv := {| kcals_daily := 2100; fat_daily := 47; protein_dail
 Example known_units_clean :
   forallb (fun u => clean (base_of u)) (kcal_keys ++ fat_keys ++ protein_keys) = true.
 Proof. vm_compute. reflexivity. Qed.
+
+(* the two former counterexamples (integer indexing, int placeholders with suffixed labels) now behave *)
+Example integer_index_per_month :
+  exists z, run_op conv0 wit_series (OIndex 0) = Ok z /\ mon z = false /\
+            units z = ["billion kcals per month"; "thousand tons per month"; "thousand tons per month"].
+Proof. eexists. repeat split; vm_compute; reflexivity. Qed.
+Example int_placeholder_single_suffix :
+  exists z, ctor (NList [1; 2]) (NInt 0) (NInt 0) "billion kcals each month" "thousand tons each month"
+                 "thousand tons each month" = Ok z /\
+            units z = ["billion kcals each month"; "thousand tons each month"; "thousand tons each month"].
+Proof. eexists. split; vm_compute; reflexivity. Qed.
 
 Example wf_inhabited : WF wit_series.
 Proof. exact wit_series_wf. Qed.
